@@ -21,7 +21,7 @@ CLASSES = ['configurable', 'denylisted', 'not-allowlisted', 'unknown-no-varkw', 
 APIS = ['str', 'tuple', 'list', 'text', 'block', 'block-multi', 'files_and_bindings', 'hook']
 REQUIRED_BUCKETS = (['class:' + c for c in CLASSES] + ['api:' + a for a in APIS] + ['shape:fn', 'shape:init', 'shape:new', 'shape:method',
                     'verdict:accepted', 'verdict:rejected', 'scoped', 'accepted-then-injected', 'rejected-then-not-injected', 'varkw-with-denylist',
-                    'special:reregister-with-denylist', 'special:reregister-interactive', 'special:decorated-function', 'special:two-hooks-second-rejected'])
+                    'special:reregister-with-denylist', 'special:reregister-interactive', 'special:decorated-function', 'special:two-hooks-second-rejected', 'special:dynamic-method-keeps-class-lists'])
 ORACLE_COUNTERS = ['oracle_evals', 'attempts']
 _S = {'plan': None}
 
@@ -47,12 +47,14 @@ def setup(ctx):
 def finish(ctx):
   import shutil
   shutil.rmtree(_S['tmp'], ignore_errors=True)
+  if 'tree' in _S:
+    _S['tree'].cleanup()
 
 
 def iter_cases(ctx, rng, n):
   for i in range(n):
     if i % 9 == 8:
-      yield {'special': rng.choice(['reregister-with-denylist', 'reregister-interactive', 'decorated-function', 'two-hooks-second-rejected']),
+      yield {'special': rng.choice(['reregister-with-denylist', 'reregister-interactive', 'decorated-function', 'two-hooks-second-rejected', 'dynamic-method-keeps-class-lists']),
              'api': rng.choice(['str', 'tuple', 'text', 'block']), 'scope': rng.choice(['', 'sc']), 'spelling': rng.choice(['short', 'mid', 'full'])}
       continue
     cls = CLASSES[i % len(CLASSES)]
@@ -209,7 +211,33 @@ def run_special(ctx, case):
       ctx.count('oracle_evals')
     ctx.check(snap.full(gin) == before, 'rejected-binding-changed-config', '%s: rejected binding changed the configuration' % kind)
 
-  if kind == 'reregister-with-denylist':
+  if kind == 'dynamic-method-keeps-class-lists':
+    # a class registered (statically) with a denylist/allowlist; a config file then configures one of its methods under dynamic registration,
+    # which re-registers the class: the lists must still hold
+    import importlib
+    from vf import pkgtree
+    if 'tree' not in _S:
+      _S['tree'] = pkgtree.Tree()
+    pk = _S['tree'].new_package('c11')
+    alpha = importlib.import_module(pk + '.alpha')
+    lists = {'denylist': ['b']} if n % 2 else {'allowlist': ['a']}
+    gin.register('K', module=pk + '.alpha', **lists)(alpha.K)
+    dyn = 'from __gin__ import dynamic_registration\nimport %s.alpha\n' % pk
+    gin.parse_config(dyn + '%s.alpha.K.meth.m = 7\n%s.alpha.K.a = 3\n' % (pk, pk))
+    for text in (dyn + '%s.alpha.K.b = 5\n' % pk, '%s.alpha.K.b = 5\n' % pk, 'sc/%s.alpha.K.b = 5\n' % pk):
+      before = snap.full(gin)
+      try:
+        gin.parse_config(text)
+        ctx.check(False, 'nonconfigurable-binding-accepted:' + kind, 'after a method of the class was configured dynamically, %s parameter b is bindable: %r' %
+                  ('denylisted' if n % 2 else 'not allowlisted', text))
+      except ValueError:
+        ctx.count('oracle_evals')
+      except Exception as e:  # pylint: disable=broad-except
+        ctx.check(False, 'unexpected-exception', '%s: %r' % (kind, e))
+      ctx.check(snap.full(gin) == before, 'rejected-binding-changed-config', '%s: rejected binding changed the configuration' % kind)
+    inst = gin.get_configurable(alpha.K)()
+    ctx.check((inst.a, inst.b, inst.meth()[1]) == (3, 0, 7), 'accepted-binding-not-injected', '%s: instance has a=%r b=%r meth->%r' % (kind, inst.a, inst.b, inst.meth()[1]))
+  elif kind == 'reregister-with-denylist':
     conf = gin.external_configurable(f, name, module=module)
     bind_via(gin, api, scope, sel, 'y', 1)              # fine, and looks the configurable up through this spelling
     gin.clear_config()
